@@ -101,6 +101,7 @@ func runProp(t *testing.T, prop string, draw func(*rapid.T) Case) {
 	os.Remove(failPath)
 	failed := false
 	defer func() { rec.Flush(failed || t.Failed()) }()
+	defer stopAllWorkers()
 	rapid.Check(t, func(rt *rapid.T) {
 		c := draw(rt)
 		canon := encodeCase(prop, c, "")
